@@ -2123,6 +2123,11 @@ drain:
 			// TODO optimize: check sub ctxs also on canceled txs
 			simhook.At("pq.beforeSubs", m.id)
 			m.processSubscriptions(t)
+		} else {
+			// canceled, but the queue tick has moved
+			for _, ch := range m.subs.ProcessWhenQueue(m.queueTick) {
+				closeSafe(ch)
+			}
 		}
 
 		t.CleanCache()
